@@ -64,6 +64,8 @@
 //     declared as a slice of interfaces that in fact holds values of one such struct: e.g. a color.Palette of
 //     RGBA entries; x.(T) on its elements is then the identity); "extvars" may also be byte slices (":-4") and
 //     fields reached through a pointer field of the receiver (cons.font.GlyphWidth);
+//   - *(*uintN)(unsafe.Pointer(a)) is a load from the memory ORACLE `ld : N -> N -> option N` (number of bytes, address;
+//     None = the address is not mapped: GPanic), an extra parameter of the function (gload, Lib/GoOps.v);
 //   - config "lenonly": slice fields of which the code only takes len() are modelled by that length;
 //   - p[lo:hi] of a []byte parameter (capacity taken to be the length);
 //   - several structs per config (records are emitted in dependency order; config "ignore" leaves fields such as
@@ -800,6 +802,20 @@ func (tr *translator) expr(e ast.Expr, en *env) (string, tinfo) {
 	case *ast.StarExpr:
 		if id, ok := t.X.(*ast.Ident); ok && id.Name == tr.ptrRecv {
 			return v(id.Name), en.vars[id.Name]
+		}
+		if w, addr, ok := unsafeLoad(t, tr.pkg); ok && cfg.Gres && tr.mon != "" {
+			// *(*uintN)(unsafe.Pointer(a)): a load of N/8 bytes from the memory oracle `ld` (None = fault)
+			if tr.noHoist > 0 {
+				fail("%s: memory load under && or ||", tr.fn.Name)
+			}
+			as, at := tr.expr(addr, en)
+			if at.width != 64 {
+				fail("%s: address of a memory load is not a uintptr: %s", tr.fn.Name, exprText(addr))
+			}
+			tmp := tr.tmp()
+			tr.pre = append(tr.pre, fmt.Sprintf("match gload ld %d %s with None => %s | Some %s =>", w/8, as, panicTok(), tmp))
+			tr.extUsed["ld"] = -20
+			return tmp, tinfo{width: w}
 		}
 		if id, ok := t.X.(*ast.Ident); ok && cfg.Gres && tr.ptrParams[id.Name] {
 			return v(id.Name), en.vars[id.Name] // *p of a pointer parameter: the parameter stands for the pointee
@@ -1913,6 +1929,31 @@ func (tr *translator) pureIf(s *ast.IfStmt, en *env, out map[string]bool) bool {
 }
 
 // needsHoist: does evaluating e involve a bounds-checked read or a call that must be hoisted?
+// unsafeLoad recognises *(*T)(unsafe.Pointer(a)) for an unsigned integer type T: its width and the address a
+func unsafeLoad(t *ast.StarExpr, pkg string) (int, ast.Expr, bool) {
+	call, ok := t.X.(*ast.CallExpr)
+	if !ok || len(call.Args) != 1 {
+		return 0, nil, false
+	}
+	par, ok := call.Fun.(*ast.ParenExpr)
+	if !ok {
+		return 0, nil, false
+	}
+	st, ok := par.X.(*ast.StarExpr)
+	if !ok {
+		return 0, nil, false
+	}
+	ty := typeOf(st.X, pkg)
+	if ty.width != 8 && ty.width != 16 && ty.width != 32 && ty.width != 64 || ty.signed {
+		return 0, nil, false
+	}
+	inner, ok := call.Args[0].(*ast.CallExpr)
+	if !ok || len(inner.Args) != 1 || exprText(inner.Fun) != "unsafe.Pointer" {
+		return 0, nil, false
+	}
+	return ty.width, inner.Args[0], true
+}
+
 func needsHoist(e ast.Expr) bool {
 	found := false
 	ast.Inspect(e, func(n ast.Node) bool {
@@ -2605,6 +2646,8 @@ func main() {
 		for _, ev := range evs {
 			if tr.extUsed[ev] == -4 {
 				params = append(params, "("+ev+" : list N)")
+			} else if tr.extUsed[ev] == -20 {
+				params = append(params, "("+ev+" : N -> N -> option N)")
 			} else {
 				params = append(params, "("+ev+" : N)")
 			}
